@@ -66,6 +66,12 @@ func (g *KeyGen) New(kt KeyType, nonce bool) *Key {
 	g.n++
 	k := &Key{ID: g.n, Type: kt, commit: map[uint]string{}, reveal: map[uint]string{}}
 
+	// every third key signs with a kid in the protected header (alg and kid are the only members allowed there)
+	kid := ""
+	if g.n%3 == 0 {
+		kid = fmt.Sprintf("key-%d", g.n)
+	}
+
 	var pub interface{}
 
 	switch kt {
@@ -74,7 +80,7 @@ func (g *KeyGen) New(kt KeyType, nonce bool) *Key {
 		must(err)
 
 		pub = p
-		k.Signer = edsigner.New(priv, kt.Alg(), "")
+		k.Signer = edsigner.New(priv, kt.Alg(), kid)
 	default:
 		var curve elliptic.Curve
 
@@ -93,7 +99,7 @@ func (g *KeyGen) New(kt KeyType, nonce bool) *Key {
 		must(err)
 
 		pub = &priv.PublicKey
-		k.Signer = ecsigner.New(priv, kt.Alg(), "")
+		k.Signer = ecsigner.New(priv, kt.Alg(), kid)
 	}
 
 	j, err := pubkey.GetPublicKeyJWK(pub)
